@@ -34,6 +34,8 @@ const SEEDS: &[RSeed] = &[
     RSeed { name: "ep-opportunity", fen: "4k3/8/8/8/4p3/8/3P4/4K3 w - - 0 1", squares: &["d2", "d4", "e1", "e2", "e8", "e7"], why: "the placement after d2d4 recurs later without the en-passant target: NOT a recurrence" },
     RSeed { name: "single-pawn-step", fen: "4k3/8/8/8/8/8/3P4/4K3 w - - 0 1", squares: &["d2", "d3", "e1", "e2", "e8", "e7"], why: "the position right after a single pawn step recurs (an irreversible move made in mid-history)" },
     RSeed { name: "capture", fen: "4k3/1p6/8/8/8/8/8/1R2K3 w - - 0 1", squares: &["b1", "b7", "e1", "e2", "e8", "e7", "d8"], why: "the position right after a capture recurs" },
+    RSeed { name: "ep-then-right-lost", fen: "1n2k3/8/8/8/8/8/P7/4K2R w K - 0 1", squares: &["a2", "a4", "h1", "g1", "b8", "c6"], why: "after a2a4 the rook shuffles away the castling right: the placement recurs with NEITHER the en-passant target NOR the right (two components of the position differ at once): NOT a recurrence" },
+    RSeed { name: "ep-then-right-lost-black", fen: "r3k3/7p/8/8/8/8/8/1N2K3 b q - 0 1", squares: &["h7", "h5", "a8", "b8", "b1", "c3"], why: "same with colours reversed, other wing" },
     RSeed { name: "ep-opportunity-black", fen: "4k3/4p3/8/3P4/8/8/8/4K3 b - - 0 1", squares: &["e7", "e5", "e1", "e2", "e8", "d8"], why: "same with colours reversed" },
 ];
 
